@@ -111,7 +111,7 @@ def spec_level(ctx, tier):
 def run(tier):
     ctx = Ctx("C17", tier, "model_checking")
     rnd = random.Random(ctx.seed)
-    ctx.cov["rule"] = ("token sequences of programs derived by TLC (CGram, CExpr) and of the corpus, each under 6 re-layouts "
+    ctx.cov["rule"] = ("token sequences of programs derived by TLC (CGram, CExpr, Scope histories) and of the corpus, each under 6 re-layouts "
                        "compared with the one-line layout (AST without coordinates and generated text), plus redundant "
                        "parentheses around matcher-reported expression spans; a case is one variant")
     spec_level(ctx, tier)
@@ -145,7 +145,20 @@ def run(tier):
             i += 1
         ctoks.append(vals)
     reps = 1 if tier == "quick" else 5
-    allp = progs + sim + exprs + ctoks * reps
+    # declaration histories of Scope.tla (typedef / object / enumerator / parameter / for-init across nested scopes, ending in a
+    # use that is grammatical both as a type and as an expression): what an identifier IS must not depend on the layout
+    from . import c04
+    import re as _re
+    hist = c04.enumerate_histories(ctx, "Scope: 1 name, <=5 items, depth 2 (layout population)", ["T"], 5, 2,
+                                   {"typedef", "obj", "enum", "func0", "open", "forinit", "proto"}, None)
+    hist = rnd.sample(hist, min(len(hist), 1500 if tier == "quick" else 20000))
+    scope_toks = []
+    for h in hist:
+        for sh in c04.shapes_for(h["prog"], h["depth"]):
+            src, _ = c04.render(h["prog"], sh)
+            scope_toks.append(_re.findall(r'[A-Za-z_]\w*|\d+|\.\.\.|->|\+\+|--|<<=|>>=|[-+*/%&|^<>=!]=|&&|\|\||<<|>>|"[^"]*"|\S', src))
+    ctx.note("population_scope_histories", dict(histories=len(hist), programs=len(scope_toks)))
+    allp = progs + sim + exprs + scope_toks + ctoks * reps
     n = 0
     for cnt, fails in pmap(_variants, [(t, rnd.randrange(1 << 30)) for t in allp], chunk=32):
         n += cnt
